@@ -442,6 +442,170 @@ pub fn raw_tokens(sink: &mut Sink, cfg: &str, r: &mut Rng, thorough: bool) {
     }
 }
 
+/// decimal digit string of `n` digits, the first one non-zero
+fn digs(r: &mut Rng, n: usize) -> String {
+    let mut s = String::new();
+    s.push((b'1' + r.below(9) as u8) as char);
+    for _ in 1..n { s.push((b'0' + r.below(10) as u8) as char); }
+    s
+}
+
+/// a number literal that does not fit the 64-bit fast path of `de.rs`: an integer part of 20 or more digits
+/// (`parse_long_integer` under float_roundtrip), a fraction during which the significand overflows u64
+/// (`parse_decimal_overflow`), with and without exponent; the scratch buffer of the Deserializer is used for all of them
+fn long_number(r: &mut Rng) -> String {
+    let s = match r.below(12) {
+        0 => (*r.pick(&["18446744073709551616", "18446744073709551617", "99999999999999999999", "10000000000000000000000", "123456789012345678901",
+                        "340282366920938463463374607431768211456", "18446744073709551615000", "100000000000000000000"])).to_string(),
+        1 | 2 => { let n = 20 + r.below(22); digs(r, n) }
+        3 => { let n = 20 + r.below(10); format!("{}e{}", digs(r, n), r.below(40) as i32 - 30) }
+        4 => { let n = 20 + r.below(10); let m = 1 + r.below(12); format!("{}.{}", digs(r, n), digs(r, m)) }
+        5 | 6 => { let n = 20 + r.below(14); format!("0.{}", digs(r, n)) }
+        7 => { let z = r.below(6); let n = 20 + r.below(10); format!("0.{}{}", "0".repeat(z), digs(r, n)) }
+        8 => { let k = 1 + r.below(19); let n = 20 + r.below(12); format!("{}.{}", digs(r, k), digs(r, n)) }
+        9 => { let k = 1 + r.below(5); let n = 19 + r.below(12); format!("{}.{}E{}", digs(r, k), digs(r, n), r.below(60) as i32 - 30) }
+        10 => (*r.pick(&["0.12345678901234567890123", "0.98765432109876543210987", "3.141592653589793238462643383279", "0.3000000000000000444089209850062616169452667236328125",
+                         "1.00000000000000000000000000000000001", "9007199254740993.00000000000000000000001", "0.000000000000000000018446744073709551616"])).to_string(),
+        _ => { let n = 20 + r.below(6); format!("{}.{}e-{}", digs(r, n), "0".repeat(1 + r.below(4)), r.below(25)) }
+    };
+    if r.chance(1, 4) { format!("-{}", s) } else { s }
+}
+
+fn short_number(r: &mut Rng) -> String {
+    (*r.pick(&["0", "7", "-1", "1.5", "1e3", "18446744073709551615", "-9223372036854775808", "0.25", "12345678901234567", "-0.0", "1E-2", "9007199254740993"])).to_string()
+}
+
+/// C02 / C01 (tag `long-seq`): the value of a literal does not depend on what was parsed before it. Arrays, nested arrays and
+/// object values holding 2–4 CONSECUTIVE long numbers (see `long_number`), mixed with short numbers and `null` / `true` /
+/// `false` — no string in between, so nothing resets the Deserializer's scratch buffer —, and the same after a string with
+/// an escape (which leaves its decoded bytes in the scratch buffer; the reader source copies every string there).
+pub fn long_seq(sink: &mut Sink, cfg: &str, r: &mut Rng, thorough: bool) {
+    // the fixed core: every ordered pair of kinds (long integer, long fraction, long integer with exponent, short)
+    let kinds: [&str; 6] = ["18446744073709551616", "0.12345678901234567890123", "123456789012345678901e-3", "-340282366920938463463374607431768211456",
+                            "3.141592653589793238462643383279", "7"];
+    for a in kinds.iter() { for b in kinds.iter() {
+        emit(sink, cfg, format!("[{},{}]", a, b).as_bytes(), r, "long-seq");
+        let c = if a.contains('e') { a.to_string() } else { format!("{}e-3", a) };
+        emit(sink, cfg, format!("[{}, null, [true, {}], 7, {}]", a, b, c).as_bytes(), r, "long-seq");
+        emit(sink, cfg, format!("{{\"k\":[{} ,{}],\"m\":{}}}", a, b, b).as_bytes(), r, "long-seq");
+        emit(sink, cfg, format!("[\"x\\n\",{},{}]", a, b).as_bytes(), r, "long-seq-str");
+        emit(sink, cfg, format!("[\"x\",{}, {}]", a, b).as_bytes(), r, "long-seq-str");
+    } }
+    let n = if thorough { 4000 } else { 400 };
+    let ws: [&str; 5] = ["", "", " ", "\n", " \t"];
+    for i in 0..n {
+        let k = 2 + r.below(3);
+        let mut items: Vec<String> = vec![];
+        for j in 0..k {
+            // the first two items are long; short numbers / literals are interleaved
+            if j < 2 || r.chance(2, 3) { items.push(long_number(r)); } else { items.push(short_number(r)); }
+            if r.chance(1, 4) { items.push((*r.pick(&["null", "true", "false", "[]", "{}"])).to_string()); }
+            if r.chance(1, 5) { items.push(short_number(r)); }
+        }
+        let after_string = i % 4 == 3;
+        if after_string {
+            let s = *r.pick(&["\"x\\n\"", "\"\\u0031\\u0032\"", "\"line\\nbreak\"", "\"42\"", "\"\\\"\"", "\"0.5\\t\"", "\"\u{e9}\""]);
+            let at = r.below(2).min(items.len());
+            items.insert(at, s.to_string());
+        }
+        let mut doc = String::new();
+        match r.below(5) {
+            0 | 1 => {
+                doc.push('[');
+                for (j, it) in items.iter().enumerate() { if j > 0 { doc.push(','); } doc.push_str(*r.pick(&ws)); doc.push_str(it); doc.push_str(*r.pick(&ws)); }
+                doc.push(']');
+            }
+            2 => {
+                // nested: every item but the first one level deeper than its predecessor, or in its own array
+                doc.push('[');
+                for (j, it) in items.iter().enumerate() {
+                    if j > 0 { doc.push(','); }
+                    match r.below(3) { 0 => doc.push_str(it), 1 => { doc.push('['); doc.push_str(it); doc.push(']'); } _ => { doc.push_str("[true, "); doc.push_str(it); doc.push_str(" ]"); } }
+                }
+                doc.push(']');
+            }
+            3 => {
+                // one object member whose value is the array (keys are strings: only the array's items are consecutive)
+                doc.push_str("{\"a\":1,\"k\":[");
+                for (j, it) in items.iter().enumerate() { if j > 0 { doc.push_str(", "); } doc.push_str(it); }
+                doc.push_str("]}");
+            }
+            _ => {
+                doc.push_str("[[");
+                for (j, it) in items.iter().enumerate() { if j > 0 { doc.push_str(if r.chance(1, 3) { "],[" } else { "," }); } doc.push_str(it); }
+                doc.push_str("]]");
+            }
+        }
+        emit(sink, cfg, doc.as_bytes(), r, if after_string { "long-seq-str" } else { "long-seq" });
+    }
+}
+
+/// C11 / C09 (tag `long-err`): syntax errors inside numbers that have left the 64-bit fast path — an integer part of 19–30 digits
+/// (20 and more: `parse_long_integer` / `parse_long_decimal` / `parse_long_exponent` under float_roundtrip) followed by
+/// `.` / `.e` / `e` / `e+` / `e-` / `.5e` … and then a byte that is not a digit (or the end of input), inside arrays and objects, on
+/// the first line and on later lines, with more bytes (also a newline) after the offending byte.
+pub fn long_err(sink: &mut Sink, cfg: &str, r: &mut Rng, thorough: bool) {
+    let ints: [&str; 9] = ["18446744073709551616", "99999999999999999999", "-123456789012345678901234567890", "1844674407370955161", "18446744073709551615",
+                           "100000000000000000000", "-18446744073709551616", "12345678901234567890123", "7"];
+    let mids: [&str; 12] = [".", ".e", "e", "e+", "e-", ".5e", ".5e+", ".5E-", "E", ".E5", ".-", ".12345678901234567890e"];
+    let tails: [&str; 14] = ["x", "]", ",", "}", " ", "\n", "\"", "e", ".", "-", "+", "", "\r\n", "\u{e9}"];
+    let mut docs: Vec<String> = vec![];
+    for i in ints.iter() { for m in mids.iter() { for t in tails.iter() {
+        let n = format!("{}{}{}", i, m, t);
+        docs.push(n.clone());
+        docs.push(format!("[{}]", n));
+        docs.push(format!("[1,\n {},\n 3]", n));
+        docs.push(format!("{{\"n\": {}, \"m\": 0}}", n));
+        docs.push(format!("[\n{}\n]", n));
+        docs.push(format!("[{}]\n", n));
+        docs.push(format!("\n\n{{\"a\":[{}", n));
+    } } }
+    // quick tier: every document with a 20+ digit integer part and the two-byte mids, a third of the rest
+    for (k, d) in docs.iter().enumerate() {
+        if thorough || k % 3 == 0 || r.chance(1, 6) { emit(sink, cfg, d.as_bytes(), r, "long-err"); }
+    }
+    for _ in 0..(if thorough { 3000 } else { 300 }) {
+        let n = 19 + r.below(14);
+        let mut s = String::new();
+        for _ in 0..r.below(3) { s.push_str(*r.pick(&["\n", " ", "[", "[1,", "{\"a\":", "\r\n", "[\"s\",\n"])); }
+        if r.chance(1, 4) { s.push('-'); }
+        s.push_str(&digs(r, n));
+        s.push_str(*r.pick(&mids));
+        s.push_str(*r.pick(&tails));
+        for _ in 0..r.below(3) { s.push_str(*r.pick(&["\n", " ", "]", ",2]", "}", "x", "\n\n"])); }
+        emit(sink, cfg, s.as_bytes(), r, "long-err-rand");
+    }
+}
+
+/// C14 (tag `exp-edge`): explicit exponents within a few units of ±i32::MAX (beyond that `parse_exponent_overflow` takes over)
+/// combined with an implicit exponent of the same sign — fraction digits with a negative exponent, more integer digits than fit
+/// a u64 with a positive one —, so that `starting_exp ± exp` leaves the i32 range unless the arithmetic saturates.
+pub fn exp_edge(sink: &mut Sink, cfg: &str, r: &mut Rng, thorough: bool) {
+    let mants: [&str; 16] = ["0.01", "0.001", "-0.001", "123.456", "0.00", "1.25", "0.1", "1", "0", "1.5", "100000000000000000000", "-100000000000000000000",
+                             "1234567890123456789012345", "0.00001", "100000", "123456789012345678901234567890.5"];
+    for m in mants.iter() {
+        for sign in ["-", "", "+"] {
+            for e in [2147483640i64, 2147483645, 2147483646, 2147483647, 2147483648, 2147483649, 4294967295, 4294967296, 9999999999] {
+                let lit = format!("{}{}{}{}", m, if e % 2 == 0 { "e" } else { "E" }, sign, e);
+                let doc = match (e as usize + m.len()) % 4 { 0 => lit.clone(), 1 => format!("[{}]", lit), 2 => format!("{{\"k\": {}}}", lit), _ => format!("[1, {} ,2]", lit) };
+                emit(sink, cfg, doc.as_bytes(), r, "exp-edge");
+            }
+        }
+    }
+    for _ in 0..(if thorough { 2000 } else { 200 }) {
+        let mut lit = String::new();
+        if r.chance(1, 3) { lit.push('-'); }
+        let n = 1 + r.below(26);
+        if r.chance(1, 3) { lit.push('0'); } else { lit.push_str(&digs(r, n)); }
+        if r.chance(2, 3) { lit.push('.'); let z = r.below(4); lit.push_str(&"0".repeat(z)); let m = 1 + r.below(22); lit.push_str(&digs(r, m)); }
+        lit.push(*r.pick(&['e', 'E']));
+        lit.push_str(*r.pick(&["-", "-", "", "+"]));
+        lit.push_str(&(2147483647i64 - 4 + r.below(8) as i64).to_string());
+        let doc = match r.below(4) { 0 => lit.clone(), 1 => format!("[{}]", lit), 2 => format!("{{\"k\": {}}}", lit), _ => format!("[1, {} ,2]", lit) };
+        emit(sink, cfg, doc.as_bytes(), r, "exp-edge-rand");
+    }
+}
+
 pub fn run(sink: &mut Sink, prop: &str, thorough: bool, seed: u64) {
     let mut r = Rng::new(seed);
     let cfg = cfg_tag();
@@ -480,6 +644,9 @@ pub fn run(sink: &mut Sink, prop: &str, thorough: bool, seed: u64) {
         raw_tokens(sink, &cfg, &mut r, thorough);
     }
     if prop == "C01" || prop == "C02" { range_band(sink, &cfg, &mut r, thorough); }
+    if prop == "C01" || prop == "C02" || prop == "C14" { long_seq(sink, &cfg, &mut r, thorough); }
+    if prop == "C11" || prop == "C09" { long_err(sink, &cfg, &mut r, thorough); }
+    if prop == "C14" { exp_edge(sink, &cfg, &mut r, thorough); }
     let toks = tokens();
     let n = if thorough { 4 } else { 3 };
     emit(sink, &cfg, b"", &mut r, "exh0");
